@@ -60,6 +60,12 @@ private theorem specStep_parts {K : Consts} {users : List Str} {watch : List Nam
   obtain ⟨⟨⟨⟨⟨h1, h2⟩, h3⟩, h4⟩, h5⟩, h6⟩ := h
   exact ⟨h1, h2, h3, h4, h5, h6⟩
 
+private theorem answered_owned {Q : DB} {u : Option Str} {n : NameId} (h : answered Q u n = true) :
+    ownedBy Q n.text u = true := by
+  unfold answered at h
+  simp only [Bool.and_eq_true] at h
+  exact h.1
+
 /-- what an in-scope `persistent_nameid` call answers: the identifier registered afterwards, owned by `u` -/
 private theorem persistent_answer {K : Consts} (hK : ConstsOk K) {cfg : Cfg} {users : List Str} {P : State}
     (inv : Inv K users P.db) {u : Str} {spq nq : Option Str} {cands : List Str}
@@ -71,7 +77,8 @@ private theorem persistent_answer {K : Consts} (hK : ConstsOk K) {cfg : Cfg} {us
   rw [ha] at hspec
   obtain ⟨_, _, _, _, hres, _⟩ := specStep_parts hspec
   simp only [resOk, Bool.and_eq_true, beq_iff_eq] at hres
-  obtain ⟨⟨⟨⟨hown, _⟩, hreg⟩, _⟩, _⟩ := hres
+  obtain ⟨⟨⟨⟨hown0, _⟩, hreg⟩, _⟩, _⟩ := hres
+  have hown := answered_owned hown0
   cases hat : a.text with
   | none => simp [ownedBy, hat] at hown
   | some t =>
@@ -204,7 +211,8 @@ theorem C18_transient_fresh {K : Consts} (hK : ConstsOk K) {cfg : Cfg} {users : 
   rw [ha] at hspec
   obtain ⟨_, _, _, _, hres, _⟩ := specStep_parts hspec
   simp only [resOk, Bool.and_eq_true] at hres
-  obtain ⟨⟨⟨hown, _⟩, _⟩, hfresh⟩ := hres
+  obtain ⟨⟨⟨hown0, _⟩, _⟩, hfresh⟩ := hres
+  have hown := answered_owned hown0
   cases hat : a.text with
   | none => simp [hat] at hfresh
   | some t =>
